@@ -4,7 +4,7 @@
 
    1. final reference      ResolutionProof::printSMT2  (/repo/src/smtsolvers/ResolutionProof.cc:203,247):
         the empty clause is bound as  cls_<CRef_Undef> = cls_4294967295, the proof ends with the text "cls_0".
-   2. constant literals    CoreSMTSolver::printSMTClause (/repo/src/smtsolvers/CoreSMTSolver.h:889-899):
+   2. constant literals    CoreSMTSolver::printSMTClause (/repo/src/smtsolvers/CoreSMTSolver.h:905-917):
         literals over var 0 / var 1 (the terms true / false; DIMACS 1 and 2) are skipped when a clause is
         printed, the pivots of the chains are printed in full.
    3. empty-clause slot    ResolutionProof::endChain (/repo/src/smtsolvers/ResolutionProof.cc:101-112):
